@@ -109,7 +109,15 @@ def gen_script(rng, nops, emphasis="mixed", with_identity=True, with_zero=False)
     return "gs " + " ".join(toks), nreg
 
 
-SECTIONS = ["B", "EQ", "MAP", "BMAP", "EB", "UB", "UT", "DEC", "OBS"]
+SECTIONS = ["B", "EQ", "MAP", "BMAP", "EB", "UB", "US", "UT", "DEC", "OBS"]
+# UB / US (uncompressed coordinates) depend on which member (x,y) / (-x,-y) of the Banderwagon class a
+# representation holds, which is not a property-level observable: they are compared only with each other
+CROSS = ("B", "EQ", "MAP", "BMAP", "EB", "UT", "DEC", "OBS")
+
+
+def canon(line):
+    return project(line, CROSS) if line.startswith("B ") else line
+
 
 
 def project(line, keep):
